@@ -185,6 +185,9 @@ func monitor(s *vdrv.Scenario, h *vdrv.History, fin string, aborted string) stri
 		return "run did not complete: " + aborted
 	}
 	cs := calls(s, h)
+	if s.OptInt("nomodel", 0) != 0 && (s.Kind == "jdkf" || s.Kind == "atomicf") && len(s.Threads) == 1 {
+		return floatScript(cs, fin)
+	}
 	stores := false
 	var total int64
 	for _, c := range cs {
@@ -260,9 +263,6 @@ func monitor(s *vdrv.Scenario, h *vdrv.History, fin string, aborted string) stri
 		if f0 != "z"+strconv.FormatInt(total, 10) {
 			return fmt.Sprintf("after all updates returned Sum() = %s, exact total = %d (an update was lost, duplicated or torn)", f0, total)
 		}
-	}
-	if s.OptInt("nomodel", 0) != 0 && (s.Kind == "jdkf" || s.Kind == "atomicf") && len(s.Threads) == 1 {
-		return floatScript(cs, fin)
 	}
 	// C16: the quiescent script behaves like a single number
 	if len(s.Threads) == 1 || !stores || phased(s) {
@@ -354,7 +354,7 @@ func floatScript(cs []*call, fin string) string {
 	}
 	for _, c := range cs {
 		if want := apply(c.op); !same(c.res, want) {
-			return fmt.Sprintf("op %s returned %s, a single float64 number gives %s", c.op, c.res, want)
+			return fmt.Sprintf("op %s returned %s, a single number (plain float64) gives %s", c.op, c.res, want)
 		}
 	}
 	var want []string
@@ -364,7 +364,7 @@ func floatScript(cs []*call, fin string) string {
 	got := strings.Split(fin, ",")
 	for i := range want {
 		if i >= len(got) || !same(got[i], want[i]) {
-			return fmt.Sprintf("quiescent script returned %s, a single float64 number gives %s", fin, strings.Join(want, ","))
+			return fmt.Sprintf("quiescent script returned %s, a single number (plain float64) gives %s", fin, strings.Join(want, ","))
 		}
 	}
 	return ""
